@@ -84,6 +84,27 @@ fn main() {
                 }
             }
         }
+        Some("canon1") => {
+            // ndjson in ({"text": module}) -> ndjson out: the canonical projection of that single module (or {"error"})
+            use asn1rs_model::parse::Tokenizer;
+            use asn1rs_model::Model;
+            let mut out = vharness::util::Out::create(&args[3]);
+            for (_i, c) in vharness::util::read_lines(&args[2]) {
+                let text = c["text"].as_str().unwrap_or("").to_string();
+                let r = vharness::util::guarded(|| -> Result<serde_json::Value, String> {
+                    let model = Model::try_from(Tokenizer.parse(&text))
+                        .map_err(|e| format!("parse: {}", format!("{}", e).lines().next().unwrap_or("")))?
+                        .try_resolve()
+                        .map_err(|e| format!("resolve: {}", format!("{}", e).lines().next().unwrap_or("")))?;
+                    Ok(vharness::canon::model(&model))
+                });
+                match r {
+                    Err(p) => out.line(&json!({"error": format!("panic: {}", p)})),
+                    Ok(Err(e)) => out.line(&json!({"error": e})),
+                    Ok(Ok(m)) => out.line(&m),
+                }
+            }
+        }
         Some("accept") => {
             // ndjson in ({"text": module}) -> ndjson out: does the asn_to_rust! front end (parse, resolve, to_rust, generator) accept it?
             use asn1rs_model::generate::rust::RustCodeGenerator;
